@@ -184,6 +184,7 @@ def pool_run(fn, items, workers, per_task_timeout=120, deadline=None, on_result=
 
     feed()
     last_progress = time.time()
+    last_progress_box = [time.time()]  # (also moved on by kill_overdue / reap: giving up on a run is progress)
     last_kill_check = [time.time()]
     hard_stall = per_task_timeout * 3 + 60
     running = {}  # pid -> key being executed
@@ -206,6 +207,7 @@ def pool_run(fn, items, workers, per_task_timeout=120, deadline=None, on_result=
                     p.kill()
                 except Exception:
                     pass
+                last_progress_box[0] = time.time()
                 if k not in out:
                     # (the runs this worker had executed before are kept: the stall may depend on them)
                     out[k] = ("timeout", {"killed_by_parent": True, "worker_prefix": [list(x) if isinstance(x, tuple) else x for x in sched_log.get(p.pid, [])[:-1]]}, now - t0_)
@@ -222,6 +224,7 @@ def pool_run(fn, items, workers, per_task_timeout=120, deadline=None, on_result=
             if not p.is_alive() and p.pid in running:
                 k = running.pop(p.pid)
                 t0_ = started.pop(p.pid, None)
+                last_progress_box[0] = time.time()
                 if k not in out:
                     if t0_ is not None and time.time() - t0_ >= per_task_timeout:
                         out[k] = ("timeout", {"killed_by_parent": True, "worker_prefix": [list(x) if isinstance(x, tuple) else x for x in sched_log.get(p.pid, [])[:-1]]}, time.time() - t0_)
@@ -244,7 +247,7 @@ def pool_run(fn, items, workers, per_task_timeout=120, deadline=None, on_result=
             if len(alive) < workers and (pending or inflight):
                 for _ in range(workers - len(alive)):
                     spawn()
-            if time.time() - last_progress > hard_stall:
+            if time.time() - max(last_progress, last_progress_box[0]) > hard_stall:
                 break
             continue
         if key == "__done__":
